@@ -1190,6 +1190,24 @@ fn corrupt(sink: &mut Sink, o: &Opts) {
                 }
             }
         }
+        // "for every byte buffer": the same file at every misalignment (the parser aligns by pointer value)
+        if k < 12 {
+            let fixed: Vec<(String, String, usize, String)> = queries.iter().take(4).cloned().collect();
+            for shift in 1..8usize {
+                let padded = [vec![0u8; shift], good.clone()].concat();
+                let store = crate::handles::Aligned::new(&padded);
+                let view = &store.bytes()[shift..];
+                let parse = match guarded(std::panic::AssertUnwindSafe(|| proguard::ProguardCache::parse(view).map(|_| ()))) {
+                    Ok(Ok(())) => json!({"ok": true}),
+                    Ok(Err(e)) => cache_error_json(&e),
+                    Err(p) => json!({"ok": false, "err": "panic", "msg": p}),
+                };
+                let calls = probe_cache(view, &fixed);
+                let failing: Vec<Value> = calls.iter().filter(|c| c["status"] != "ok" || c["provenance_ok"] != true).cloned().collect();
+                let shown = if failing.is_empty() { calls.into_iter().take(1).collect() } else { failing };
+                sink.emit(json!({"t": "corrupt", "what": format!("misaligned+{shift}"), "parse": parse, "calls": shown, "len": view.len()}));
+            }
+        }
         // string section, systematic part: every string start of small files gets an over-long / non-terminated
         // LEB128 length prefix (runs of continuation bytes up to and beyond the 10 a u64 can take, with several
         // terminal bytes), and the whole section is filled with continuation bytes
